@@ -13,6 +13,19 @@ CST_CMD = {"object_class": 330, "attribute_type": 331, "dit_content_rule": 332}
 JUNK = list(" ()'$\\{}-_X.") + ["NAME", "DESC", "X-", "  ", "\n", "\t", "é", "''", "\\27", "\\5c", "MUST", "'"]
 
 
+def sibling(rng, t):
+    inside, pos = False, []
+    for i, ch in enumerate(t):
+        if ch == "'":
+            inside = not inside
+        elif ch == " " and inside:
+            pos.append(i)
+    if not pos:
+        return None
+    i = rng.choice(pos)
+    return t[:i] + " " * rng.choice([1, 2]) + t[i:]
+
+
 class C17(Prop):
     id = "C17"
     prop_file = "Props/C17"
@@ -59,6 +72,15 @@ class C17(Prop):
             t = rfc4512.sentence(rng, kind, v, ad_syntax=(kind == "attribute_type" and rng.random() < 0.3), lower_x=False)
             if r < 0.7:
                 out.append({"kind": kind, "text": t, "v": v, "mode": "sentence"})
+                if rng.random() < 0.25:
+                    # a sibling sentence in the same process: equal up to the length of one space run INSIDE a quoted
+                    # string (where spaces are data) - anything keyed on a normalised form of the text confuses the two
+                    t2 = sibling(rng, t)
+                    if t2 is not None:
+                        try:
+                            out.append({"kind": kind, "text": t2, "v": rfc4512.parse(kind, t2), "mode": "sentence"})
+                        except rfc4512.NotASentence:
+                            pass
             else:
                 # totality clause: edits / random text
                 s = t
